@@ -592,6 +592,23 @@ func c04WindowProgs() []*c04Prog {
 			out = append(out, p)
 		}
 	}
+	// (v) RemoveAll of a name that is a regular file when the call starts ‖ Rename of a non-empty
+	// directory onto that name, followed by Stat of the name and of a child: RemoveAll looks and
+	// deletes in one section, so "the name is gone but its child is there" cannot be observed
+	for _, rm := range []string{oRemoveAll("/x"), oRemoveAll("/x/"), oRemove("/x")} {
+		for _, mv := range [][]string{
+			{oRename("/d", "/x"), oStat("/x"), oStat("/x/c")},
+			{oRename("/d", "/x"), oStat("/x"), oStat("/x/e/g")},
+			{oRemove("/x"), oMkdirAll("/x/c", 0o755), oStat("/x"), oStat("/x/c")},
+		} {
+			p := &c04Prog{Focus: "window-removeall-file", Threads: [][]string{{rm}, mv}}
+			p.Setup = append(p.Setup, c04MkFile("/x", "xx")...)
+			p.Setup = append(p.Setup, oMkdirAll("/d/e", 0o755))
+			p.Setup = append(p.Setup, c04MkFile("/d/c", "cc")...)
+			p.Setup = append(p.Setup, c04MkFile("/d/e/g", "gg")...)
+			out = append(out, p)
+		}
+	}
 	return out
 }
 
